@@ -44,7 +44,7 @@ def check(ctx):
         _, dia = tables.class_dict(ctx, cls, 'PYTHON_DIALECT')
         for t in TEMPORAL:
             s = ser.get(t)
-            nm = tables.strftime_format_names(s) if s is not None else None
+            nm = tables.strftime_format_names(s, ctx, mod) if s is not None else None
             if nm is None:
                 run.fail('R16t', cls.where, cls.qualname, 'SERIALIZERS[%r]' % t,
                          '%s has no strftime serializer for %s (values would be written with str())' % (cls.name, t))
@@ -208,7 +208,7 @@ def check(ctx):
 
     run.rule('SERL', 'SERIALIZER-LOCAL: the serializer chosen for a field depends only on that field (its type, its own format '
                      'property) and on the class table / default - never on state written while handling earlier fields')
-    finit_ = base.methods['__init__']
+    finit_ = ctx.N(base.methods['__init__'])
     floops = [n for n in own_nodes(finit_.node) if isinstance(n, ast.For) and u(n.iter).endswith('schema.fields')
               and any(isinstance(x, ast.Assign) and "['serializer']" in u(x.targets[0]) for x in ast.walk(n))]
     if len(floops) != 1:
@@ -247,7 +247,7 @@ def check(ctx):
               'the serializer is not looked up in the class table by the field\'s own type')
 
     from rules import independence
-    independence.r28_functions(ctx, [('dataflows.processors.dumpers.formats.base:FileFormat.__init__', {})])
+    independence.r28_functions(ctx, [(finit_, {})])
     run.rule('R16o', 'COLUMN-ORDER: a format that writes each row as a JSON object is read back column-wise in sorted key order '
                      '(LF2) and paired by position with the stamped schema, so it must stamp the fields in sorted order, write '
                      'arrays, or otherwise normalise the order')
@@ -277,9 +277,10 @@ def check(ctx):
 
     run.rule('LOAD', 'LOAD-SIDE: loading a data package iterates each selected resource keyed and with casting on')
     ld = repo.cls('dataflows.processors.load:load')
-    sp = ld.methods['safe_process_datapackage']
+    sp = ctx.N(ld.methods['safe_process_datapackage'])
+    res_vars = {pseudo(l.target) for l in ast.walk(sp.node) if isinstance(l, ast.For) and u(l.iter).endswith('.resources')}
     its = [n for n in own_nodes(sp.node) if isinstance(n, ast.Call) and isinstance(n.func, ast.Attribute) and n.func.attr == 'iter'
-           and pseudo(n.func.value) == 'resource']
+           and pseudo(n.func.value) in res_vars]
     ok = len(its) == 1
     if ok:
         kw = {k.arg: k.value for k in its[0].keywords}
@@ -290,8 +291,8 @@ def check(ctx):
 
     run.rule('TFP', 'TEMPORAL-FORMAT-PROPERTY: the serializer override and the rewrite of the stamped format read the same field '
                     'property and apply to the same three types')
-    finit = base.methods['__init__']
-    hd = fd.methods['handle_datapackage']
+    finit = ctx.N(base.methods['__init__'])
+    hd = ctx.N(fd.methods['handle_datapackage'])
     a_types = [tables.literal(ctx, base.module.name, n.comparators[0])[0] for n in ast.walk(finit.node)
                if isinstance(n, ast.Compare) and isinstance(n.ops[0], ast.In) and 'type' in u(n.left)]
     b_types = [tables.literal(ctx, fd.module.name, n.comparators[0])[0] for n in ast.walk(hd.node)
